@@ -9,9 +9,15 @@ BASE=0
 if [ "${1:-}" = "--baseline" ]; then BASE=1; shift; fi
 TIER=${TIER:-quick}
 if ! git -C /repo diff --quiet; then echo "REFUSING: /repo has uncommitted changes"; exit 2; fi
-if ! git -C /repo apply --check "$PATCH" 2>/dev/null; then echo "PATCH DOES NOT APPLY: $PATCH"; exit 2; fi
-git -C /repo apply "$PATCH"
-trap 'git -C /repo checkout -- . ; git -C /repo clean -fdq -- src tests examples 2>/dev/null' EXIT
+trap 'git -C /repo reset -q --hard HEAD ; git -C /repo clean -fdq -- src tests examples 2>/dev/null' EXIT
+if git -C /repo apply --check "$PATCH" 2>/dev/null; then
+  git -C /repo apply "$PATCH"
+elif (cd /repo && patch -p1 -s --fuzz=3 --dry-run < "$PATCH" >/dev/null 2>&1); then
+  # the patch was written against an earlier commit of /repo: apply with context fuzz
+  (cd /repo && patch -p1 -s --fuzz=3 --no-backup-if-mismatch < "$PATCH")
+else
+  echo "PATCH DOES NOT APPLY: $PATCH"; exit 2
+fi
 export VERIF_EVIDENCE_DIR=/tmp/mutant-evidence VERIF_REPLAY_DIR=/tmp/mutant-replays
 mkdir -p $VERIF_EVIDENCE_DIR $VERIF_REPLAY_DIR
 if [ $BASE = 1 ]; then
